@@ -181,6 +181,7 @@ type Project struct {
 	CropOut     []OutCol          `json:"cropOut,omitempty"`
 	Automan     []AutoRow         `json:"automan,omitempty"`     // rows of automan.txt; nil = default rows for the crops of the rotation
 	OtherFields []string          `json:"otherFields,omitempty"` // extra field ids mixed into the schedule files (noise of other fields)
+	FileExt     string            `json:"fileExt,omitempty"`     // batch line fileExtension=<ext>: rotation, polygon file and automatic-management table are read from *.<ext>; the *.txt files then hold another configuration
 	AltParams   bool              `json:"altParams,omitempty"`   // the parameter folder of this project holds OTHER tables than the shipped ones (sibling runs of a session)
 	Interleave  bool              `json:"interleave,omitempty"`  // schedule files sorted by date: lines of the other fields between the lines of this one
 	ExtraArgs   []string          `json:"extraArgs,omitempty"`
@@ -288,6 +289,9 @@ func (p *Project) EarliestDay() int {
 func (p *Project) Args() []string {
 	a := []string{"project=" + p.Name, "plotNr=" + p.PlotNr, "poligonID=" + p.PolyID, "soilId=" + p.Soil.ID,
 		"fcode=" + p.Weather.FCode, "resultfolder=" + "RESULT_" + p.Name, "parameter=parameter"}
+	if p.FileExt != "" {
+		a = append(a, "fileExtension="+p.FileExt)
+	}
 	return append(a, p.ExtraArgs...)
 }
 
@@ -420,13 +424,44 @@ func (p *Project) Write(root, paramSrc string) error {
 	if err := wr("config.yml", p.ConfigYAML()); err != nil {
 		return err
 	}
-	wr("poly_"+p.Name+".txt", p.polyFile())
+	if p.FileExt != "" {
+		// several configurations in one project folder: this run uses the files with the given extension; the default
+		// files describe another configuration (other groundwater range, rotation crops in another order, other windows)
+		wr("poly_"+p.Name+"."+p.FileExt, p.polyFile())
+		wr("crop_"+p.Name+"."+p.FileExt, p.RotationTxt())
+		wr("automan."+p.FileExt, p.AutomanFile())
+		d := *p
+		d.GWHigh, d.GWLow = p.GWHigh+3, p.GWLow+9
+		d.Rotation = append([]RotEntry(nil), p.Rotation...)
+		for i := 1; i+1 < len(d.Rotation); i += 2 {
+			d.Rotation[i].Crop, d.Rotation[i+1].Crop = d.Rotation[i+1].Crop, d.Rotation[i].Crop
+		}
+		d.Automan = nil
+		for _, r := range p.AutomanRows() {
+			if r.Sow1M > 0 {
+				r.Sow1M, r.Sow2M = r.Sow1M+1, r.Sow2M+1
+			}
+			if r.Har2M > 0 && r.Har2M < 12 {
+				r.Har2M++
+			}
+			r.IrrMax = 2*r.IrrMax + 5
+			r.IrrSt1, r.IrrSt2 = 1, 9
+			d.Automan = append(d.Automan, r)
+		}
+		wr("poly_"+p.Name+".txt", d.polyFile())
+		wr("crop_"+p.Name+".txt", d.RotationTxt())
+		wr("automan.txt", d.AutomanFile())
+	} else {
+		wr("poly_"+p.Name+".txt", p.polyFile())
+	}
 	if p.Soil.Encoding == "txt" {
 		wr("soil_"+p.Name+".txt", p.SoilTxt())
 	} else {
 		wr("soil_"+p.Name+".csv", p.SoilCSV())
 	}
-	if p.Cfg.CropFileFormat == "csv" {
+	if p.FileExt != "" {
+		// written above
+	} else if p.Cfg.CropFileFormat == "csv" {
 		wr("crop_"+p.Name+".csv", p.RotationCSV())
 	} else {
 		wr("crop_"+p.Name+".txt", p.RotationTxt())
@@ -439,7 +474,9 @@ func (p *Project) Write(root, paramSrc string) error {
 	} else {
 		wr("endit_"+p.Name+".txt", p.MeasureTxt())
 	}
-	wr("automan.txt", p.AutomanFile())
+	if p.FileExt == "" {
+		wr("automan.txt", p.AutomanFile())
+	}
 	if len(p.GWSeries) > 0 {
 		wr("gw_"+p.Name+".csv", p.gwFile())
 	}
